@@ -436,6 +436,9 @@ class URL:
             )
 
         self = object.__new__(URL)
+        # the scheme is case-insensitive, its canonical form is lower-case
+        # (the parser and with_scheme() store it that way, too)
+        scheme = scheme.lower()
         self._scheme = scheme
         _host: Union[str, None] = None
         if authority:
